@@ -4,5 +4,6 @@ CONSTANTS
   Mode = "built"
   MaxDepth = 3
   Pads = {0, 1, 39, 159}
+  Os = "linux"
 INVARIANTS WellFormed MatchesBuild Bounded Emit
 CHECK_DEADLOCK FALSE
